@@ -385,11 +385,17 @@ func (rs *s3ClientStorage) HeadObject(ctx context.Context, bucketName storage.Bu
 			return nil
 		}(),
 	})
-	var notFoundError *types.NotFound
-	if err != nil && errors.As(err, &notFoundError) {
-		return nil, storage.ErrNoSuchBucket
-	}
 	if err != nil {
+		err = translateS3Error(err)
+		var notFoundError *types.NotFound
+		if errors.As(err, &notFoundError) {
+			// The 404 of a HEAD request has no error document, so it does not say
+			// whether the key or the bucket is missing.
+			if _, bucketErr := rs.HeadBucket(ctx, bucketName); bucketErr == storage.ErrNoSuchBucket {
+				return nil, storage.ErrNoSuchBucket
+			}
+			return nil, storage.ErrNoSuchKey
+		}
 		return nil, err
 	}
 	var userMetadata map[string]string
